@@ -103,3 +103,57 @@ Proof.
   split; vm_compute; reflexivity.
 Qed.
 Print Assumptions C11_pinned_kernel_refuted.
+
+(* ================================================================== *)
+(* The same property on the REGENERATED program: [program] is the MiniC  *)
+(* translation of the C kernel produced from the tree under test on      *)
+(* every run (Gen/KernelsAst.v); [exec_fun] its interpreter (MiniC.v).   *)
+(* ================================================================== *)
+From Coq Require Import String Lia.
+From Hy Require Import Base.MiniC Gen.KernelsAst Proofs.RefineAccumulate Proofs.KernelAccumulate.
+Open Scope string_scope.
+Open Scope list_scope.
+Open Scope Z_scope.
+
+(* c_accumulate = the model, any arithmetic instance (binary64 included), any grid shape,
+   any flow directions (cycles, invalid codes), any nprint (0 and negative included), any
+   field content: return 0 and the model's array, or a positive code and untouched arrays
+   when the model rejects (maxcells < 1 or nrows < 1) *)
+Theorem C11_kernel_accumulate_refines_model :
+  forall {T} (N : NumOps T) (X : NumLit T) nrows ncols nprint maxcells (nodata : T) fd field n,
+  List.length fd = Z.to_nat (nrows * ncols) ->
+  List.length field = Z.to_nat (nrows * ncols) ->
+  (Nat.max (Nat.max (Z.to_nat (nrows * ncols)) (Z.to_nat (maxcells + 1))) 10 < n)%nat ->
+  match accumulate N nrows ncols maxcells nodata fd field with
+  | Some res =>
+      exec_fun N X program (S n) "c_accumulate"
+        [AVI nrows; AVI ncols; AVI nprint; AVI maxcells; AVF nodata; AVArrI FLOWDIRCODE;
+         AVArrI fd; AVArrF field; AVArrF field]
+      = Ok (RI 0, [VArrI FLOWDIRCODE; VArrI fd; VArrF field; VArrF res])
+  | None =>
+      exists code, 0 < code /\
+      exec_fun N X program (S n) "c_accumulate"
+        [AVI nrows; AVI ncols; AVI nprint; AVI maxcells; AVF nodata; AVArrI FLOWDIRCODE;
+         AVArrI fd; AVArrF field; AVArrF field]
+      = Ok (RI code, [VArrI FLOWDIRCODE; VArrI fd; VArrF field; VArrF field])
+  end.
+Proof. exact @refine_accumulate. Qed.
+Print Assumptions C11_kernel_accumulate_refines_model.
+
+(* the local law and the no-data law hold of what the translated kernel returns, on any
+   grid without cycles; the input arrays come back unchanged *)
+Theorem C11_kernel_accumulate_laws :
+  forall nrows ncols nprint maxcells (nodata : R) fd field n,
+  0 < ncols -> 1 <= nrows -> 1 <= maxcells -> nrows * ncols <= maxcells ->
+  acyclic nrows ncols fd ->
+  List.length fd = Z.to_nat (nrows * ncols) -> List.length field = Z.to_nat (nrows * ncols) ->
+  (Nat.max (Nat.max (Z.to_nat (nrows * ncols)) (Z.to_nat (maxcells + 1))) 10 < n)%nat ->
+  exists res,
+    run_accumulate n nrows ncols nprint maxcells nodata fd field
+      = Ok (RI 0, [VArrI FLOWDIRCODE; VArrI fd; VArrF field; VArrF res]) /\
+    (forall c d, 0 <= c < nrows * ncols -> downstream nrows ncols fd c = Some d -> 0 <= d ->
+       zn res c 0%R = (zn field c 0 + Rsum (map (fun u => zn res u 0%R) (upstream_hits nrows ncols fd c)))%R) /\
+    (forall c d, 0 <= c < nrows * ncols -> downstream nrows ncols fd c = Some d -> d < 0 ->
+       zn res c 0%R = nodata).
+Proof. exact kernel_accumulate_laws. Qed.
+Print Assumptions C11_kernel_accumulate_laws.
